@@ -439,6 +439,30 @@ pub fn ladder_texts() -> Vec<String> {
         out.push(format!("{}a . b{}", "(".repeat(n), ")".repeat(n)));
         out.push(format!("{}a{}", "#(".repeat(n), ")".repeat(n)));
     }
+    // token-length ladder: digit runs of every length (leading / trailing zeros, fraction and
+    // integer part, exponent), identifiers, strings and |symbols| of every length
+    for n in 1..=60usize {
+        out.push(format!("0.{}1", "0".repeat(n)));
+        out.push(format!("0.{}25e3", "0".repeat(n)));
+        out.push(format!("1{}.0", "0".repeat(n)));
+        out.push(format!("1{}.5e-{}", "0".repeat(n), n));
+        out.push(format!("0.{}", "1".repeat(n)));
+        out.push(format!("{}.5", "9".repeat(n)));
+        out.push(format!("-{}.{}", "3".repeat(n), "7".repeat(n)));
+        out.push(format!("{}1", "0".repeat(n)));
+        out.push(format!("{}1/{}3", "0".repeat(n), "0".repeat(n)));
+        out.push(format!("1.5e{}2", "0".repeat(n)));
+        if n <= 9 {
+            // (exact integers beyond the i32 range are an implementation restriction: not judged)
+            out.push("7".repeat(n));
+        }
+    }
+    for n in 1..=300usize {
+        out.push("a".repeat(n));
+        out.push(format!("\"{}\"", "s".repeat(n)));
+        out.push(format!("|{}|", "x ".repeat(n)));
+        out.push(format!("(a{} . b{})", "-".repeat(n), "+".repeat(n)));
+    }
     out
 }
 
